@@ -638,13 +638,14 @@ def check_human_repr(tier, out):
 def fixed_point_cases(tier):
     schemes = ("http", "https", "", "x-y", "HTTP")
     userinfos = ("", "u@", "u:p@", "%41:%3a@", "é:@", ":p@")
-    hosts = ("h", "EXAMPLE.com", "хост.рф", "127.0.0.1", "[::1]", "[FE80::1%25eth0]", "[v1.x:y]", "a%2eb", "xn--e1afmkfd.xn--p1ai")
+    hosts = ("h", "EXAMPLE.com", "хост.рф", "127.0.0.1", "[::1]", "[FE80::1%25eth0]", "[v1.x:y]", "a%2eb", "xn--e1afmkfd.xn--p1ai",
+             "a\uff3bb", "\uff41\uff0e\uff42")
     ports = ("", ":80", ":443", ":8080", ":")
     paths = ("", "/", "/a/b", "/a/./b/../c", "/%2e%2E/x", "/a%2Fb", "/é", "/a b", "//x", "/a:b", "/%zz", "/+%2B")
     queries = ("", "?", "?a=b", "?a=%26&c=d+e", "?é=%C3%A9", "?a=b;c", "?%zz")
     frags = ("", "#", "#f", "#%23é", "#a?b/c")
     if tier == "quick":
-        hosts = hosts[:7]
+        hosts = hosts[:7] + hosts[-2:]
         paths = paths[:9]
         queries = queries[:5]
         frags = frags[:4]
